@@ -24,7 +24,8 @@ def conelp_configs(I, rnd, k, default_only=False):
     elif I["kind"] == "dinf":
         starts += ["primal"]
     opts = [None, TIGHT, LOOSE, {"refinement": 0}, {"refinement": 1}, {"refinement": 2}, {"maxiters": 1}, {"maxiters": 2},
-            {"maxiters": 3}, {"maxiters": 100}]
+            {"maxiters": 3}, {"maxiters": 100}, {"abstol": 1e-2}, {"feastol": 1e-5}, {"reltol": 1e-3, "abstol": 1e-3},
+            {"abstol": 1e-2, "reltol": 1e-2, "feastol": 1e-9}]
     out = [dict(entry="conelp")]
     if default_only:
         for e in entries[1:]:
@@ -49,15 +50,17 @@ def coneqp_configs(I, rnd, k, default_only=False):
     d = I["dims"]
     entries = ["coneqp"] + (["qp"] if not d["q"] and not d["s"] else [])
     kkts = [None, "ldl", "ldl2", "chol"] + (["chol2"] if not d["q"] and not d["s"] else [])
-    opts = [None, TIGHT, LOOSE, {"refinement": 0}, {"refinement": 1}, {"refinement": 2}, {"maxiters": 1}, {"maxiters": 2}, {"maxiters": 100}]
+    opts = [None, TIGHT, LOOSE, {"refinement": 0}, {"refinement": 1}, {"refinement": 2}, {"maxiters": 1}, {"maxiters": 2}, {"maxiters": 100},
+            {"abstol": 1e-2}, {"feastol": 1e-5}, {"reltol": 1e-3, "abstol": 1e-3}, {"abstol": 1e-2, "reltol": 1e-2, "feastol": 1e-9}]
     subsets = [None, ["x"], ["s"], ["z"], ["x", "s"], ["y", "z"], ["s", "z"], ["x", "s", "y", "z"], ["x", "y"], ["x", "s", "z"]]
     out = [dict(entry="coneqp")]
     if default_only:
         for e in entries[1:]:
             out.append(dict(entry=e))
         return out
-    for _ in range(k):
-        c = dict(entry=rnd.choice(entries), kktsolver=rnd.choice(kkts), storage=rnd.choice(["dense", "sparse"]),
+    off = rnd.randrange(len(kkts))
+    for t in range(k):
+        c = dict(entry=rnd.choice(entries), kktsolver=kkts[(off + t) % len(kkts)], storage=rnd.choice(["dense", "sparse"]),
                  initvals=rnd.choice(subsets), options=rnd.choice(opts), junk_upper=rnd.random() < 0.4)
         if c["initvals"] and "y" in c["initvals"] and I["p"] == 0:
             c["initvals"] = [v for v in c["initvals"] if v != "y"] or None
